@@ -350,6 +350,81 @@ Theorem C08_robot_attr_by_name_serves : forall r cs c n h T a o,
   ~ request_fails subclass (injectables_with r cs) c n h.
 Proof. exact (robot_attr_by_name_serves subclass). Qed.
 
+(* ---------------------------------------------------------------------- *)
+(* The state of the driver station while the robot program starts -- FMS     *)
+(* attached or not, robot enabled or not: [env] -- decides nothing, for       *)
+(* components and autonomous modes alike.  [startup_in subclass e r] is       *)
+(* _create_components run while wpilib.DriverStation reports e.               *)
+(* ---------------------------------------------------------------------- *)
+
+(* Which error is raised, or which components are created with which
+   constructor arguments and what is written into every component and mode:
+   the same in any two environments. *)
+Theorem C08_env_irrelevant : forall e e' r,
+  startup_in subclass e r = startup_in subclass e' r.
+Proof. exact (startup_env_irrelevant subclass). Qed.
+
+(* ... hence the order of events and every attribute of every component and
+   mode at each setup() call and after start-up. *)
+Theorem C08_env_observation_irrelevant : forall e e' r s s',
+  startup_in subclass e r = Ok s -> startup_in subclass e' r = Ok s' ->
+  s = s' /\ trace_of r s = trace_of r s' /\ observe r s = observe r s'.
+Proof. exact (observe_env_irrelevant subclass). Qed.
+
+(* In every environment start-up fails iff some request cannot be served. *)
+Theorem C08_env_fail_iff : forall e r,
+  (exists err, startup_in subclass e r = Err err) <->
+  robot_fault r \/ ctor_fault subclass r \/ attr_fault subclass r.
+Proof. exact (startup_in_fail_iff subclass). Qed.
+
+(* "If no such object exists or it is not an instance of the annotated type,
+   startup fails with an injection error instead of running with a missing or
+   mistyped dependency" -- for an AUTONOMOUS MODE, with or without the FMS: a
+   public unset annotated attribute of a mode for which the robot attributes
+   and components hold nothing under either name, or an object that is not an
+   instance (or whose annotation is not a class), makes start-up fail; with
+   class annotations only, with the injection error ... *)
+Theorem C08_env_mode_fault_fails : forall e r md n h,
+  In md (r_modes r) -> In (n, h) (m_hints md) -> is_private n = false -> mode_has md n = false ->
+  request_fails subclass (all_injectables r) (m_name md) n h ->
+  exists err, startup_in subclass e r = Err err /\ (all_types r -> err = EInject).
+Proof. exact (mode_fault_fails_in subclass). Qed.
+
+(* ... for a component attribute ... *)
+Theorem C08_env_comp_fault_fails : forall e r c d n h,
+  In (c, d) (components r) -> In (n, h) (k_hints (c_class d)) -> is_private n = false ->
+  comp_has d n = false -> request_fails subclass (all_injectables r) c n h ->
+  exists err, startup_in subclass e r = Err err /\ (all_types r -> err = EInject).
+Proof. exact (comp_fault_fails_in subclass). Qed.
+
+(* ... and for a constructor parameter. *)
+Theorem C08_env_ctor_fault_fails : forall e r, ctor_fault subclass r ->
+  exists err, startup_in subclass e r = Err err /\ (all_types r -> err = EInject).
+Proof. exact (ctor_fault_fails_in subclass). Qed.
+
+(* Conversely a start-up that succeeded, in whatever environment, left no
+   component and no mode ([targets r]: components, then modes) with a missing
+   or mistyped dependency. *)
+Theorem C08_env_attr_exact : forall e r s, startup_in subclass e r = Ok s ->
+  forall tg n h, In tg (targets r) -> In (n, h) (t_hints tg) ->
+    is_private n = false -> t_has tg n = false ->
+    exists T o, hint_type h = Some T /\
+      pick (all_injectables r) (tname (t_ref tg)) n = Some o /\
+      subclass (ocls o) T = true /\
+      attr_at r (before_first_setup (trace_of r s)) (t_ref tg) n = Is (Some o) /\
+      attr_at r (trace_of r s) (t_ref tg) n = Is (Some o).
+Proof. exact (attr_exact_in subclass). Qed.
+
+Theorem C08_env_attr_exact_modes : forall e r s, startup_in subclass e r = Ok s ->
+  forall md n h, In md (r_modes r) -> In (n, h) (m_hints md) ->
+    is_private n = false -> mode_has md n = false ->
+    exists T o, hint_type h = Some T /\
+      pick (all_injectables r) (m_name md) n = Some o /\
+      subclass (ocls o) T = true /\
+      attr_at r (before_first_setup (trace_of r s)) (TMode (m_name md)) n = Is (Some o) /\
+      attr_at r (trace_of r s) (TMode (m_name md)) n = Is (Some o).
+Proof. exact (attr_exact_mode_in subclass). Qed.
+
 End C08.
 
 (* ====================================================================== *)
@@ -586,6 +661,72 @@ Proof.
   intros a [<-|[<-|[<-|[]]]]; vm_compute; split; reflexivity.
 Qed.
 
+(* the driver station: on the bench, and (re)started on the field in the middle
+   of a match.  A robot with the gyro, one component and three autonomous modes:
+   [m_good] can be served, [m_missing] asks for an arm the robot does not have,
+   [m_mistyped] wants robot.gyro to be a Shooter (class 21). *)
+Definition env_bench := {| fms_attached := false; ds_enabled := false |}.
+Definition env_match := {| fms_attached := true; ds_enabled := true |}.
+Definition k_chassis : classdef :=
+  {| k_cls := 20; k_init_hints := []; k_hints := [("gyro", HType 10)]; k_preset := []; k_setup := true |}.
+Definition d_chassis := {| c_oid := 104; c_truthy := true; c_class := k_chassis |}.
+Definition m_good : modedef :=
+  {| m_name := "good"; m_hints := [("drive", HType 20); ("gyro", HType 10)]; m_preset := []; m_setup := true |}.
+Definition m_missing : modedef :=
+  {| m_name := "missing"; m_hints := [("drive", HType 20); ("arm", HType 21)]; m_preset := []; m_setup := false |}.
+Definition m_mistyped : modedef :=
+  {| m_name := "mistyped"; m_hints := [("drive", HType 20); ("gyro", HType 21)]; m_preset := []; m_setup := false |}.
+Definition field_robot (modes : list modedef) : robot :=
+  {| r_dir := [ {| ra_name := "gyro"; ra_kind := KPlain; ra_value := Some o_gyro |} ];
+     r_hints := [("drive", RClass d_chassis)]; r_modes := modes |}.
+Definition field_started : started :=
+  {| st_comps := [ {| cr_name := "drive"; cr_def := d_chassis; cr_kwargs := [] |} ];
+     st_updates := [ (TComp "drive", [("gyro", o_gyro)]);
+                     (TMode "good", [("drive", comp_obj d_chassis); ("gyro", o_gyro)]) ] |}.
+Example C08_nv_env_good_mode_starts :
+  startup_in ex_sub env_bench (field_robot [m_good]) = Ok field_started /\
+  startup_in ex_sub env_match (field_robot [m_good]) = Ok field_started.
+Proof. split; vm_compute; reflexivity. Qed.
+(* a missing / mistyped dependency of a mode: the injection error, FMS or not, also
+   when the faulty mode comes after a good one *)
+Example C08_nv_env_faulty_mode_fails :
+  startup_in ex_sub env_bench (field_robot [m_good; m_missing]) = Err EInject /\
+  startup_in ex_sub env_match (field_robot [m_good; m_missing]) = Err EInject /\
+  startup_in ex_sub env_bench (field_robot [m_mistyped; m_good]) = Err EInject /\
+  startup_in ex_sub env_match (field_robot [m_mistyped; m_good]) = Err EInject.
+Proof. repeat split; vm_compute; reflexivity. Qed.
+(* the hypotheses of C08_env_mode_fault_fails are met by both *)
+Example C08_nv_env_mode_fault_hypotheses :
+  In m_missing (r_modes (field_robot [m_good; m_missing])) /\ In ("arm", HType 21) (m_hints m_missing) /\
+  is_private "arm" = false /\ mode_has m_missing "arm" = false /\
+  request_fails ex_sub (all_injectables (field_robot [m_good; m_missing])) "missing" "arm" (HType 21) /\
+  request_fails ex_sub (all_injectables (field_robot [m_mistyped; m_good])) "mistyped" "gyro" (HType 21) /\
+  all_types (field_robot [m_good; m_missing]).
+Proof.
+  repeat split; try (vm_compute; reflexivity); try (vm_compute; tauto).
+  - intros o H. vm_compute in H. discriminate.
+  - intros o H. vm_compute in H. inversion H; subst. vm_compute. reflexivity.
+  - intros m [H|[]]. inversion H.
+  - apply typed_hints_by_computation. destruct H as [H|[]]. inversion H; subst. reflexivity.
+  - apply typed_hints_by_computation. destruct H as [H|[]]. inversion H; subst. reflexivity.
+  - intros md [<-|[<-|[]]]; apply typed_hints_by_computation; reflexivity.
+Qed.
+(* The statements exclude something: the start-up that runs each injection
+   inside "try: ... except: self.onException()" (Proofs.startup_tolerant, NOT
+   the code) agrees on the bench, but started on the field it leaves the mode
+   without its arm and carries on. *)
+Example C08_nv_env_tolerant_startup_would_differ :
+  startup_tolerant ex_sub env_bench (field_robot [m_good; m_missing]) = Err EInject /\
+  exists s, startup_tolerant ex_sub env_match (field_robot [m_good; m_missing]) = Ok s /\
+    attr_at (field_robot [m_good; m_missing]) (trace_of (field_robot [m_good; m_missing]) s)
+            (TMode "missing") "arm" = Absent /\
+    attr_at (field_robot [m_good; m_missing]) (trace_of (field_robot [m_good; m_missing]) s)
+            (TMode "missing") "drive" = Absent.
+Proof.
+  split; [vm_compute; reflexivity|].
+  eexists. split; [vm_compute; reflexivity|]. split; vm_compute; reflexivity.
+Qed.
+
 Print Assumptions C08_attr_exact.
 Print Assumptions C08_attr_exact_modes.
 Print Assumptions C08_injectables_are_attrs_and_all_components.
@@ -617,3 +758,11 @@ Print Assumptions C08_robot_attr_by_name_delivered_modes.
 Print Assumptions C08_robot_attr_by_name_ctor_delivered.
 Print Assumptions C08_plain_name_wins.
 Print Assumptions C08_robot_attr_by_name_serves.
+Print Assumptions C08_env_irrelevant.
+Print Assumptions C08_env_observation_irrelevant.
+Print Assumptions C08_env_fail_iff.
+Print Assumptions C08_env_mode_fault_fails.
+Print Assumptions C08_env_comp_fault_fails.
+Print Assumptions C08_env_ctor_fault_fails.
+Print Assumptions C08_env_attr_exact.
+Print Assumptions C08_env_attr_exact_modes.
